@@ -1,14 +1,14 @@
 """C12 - WebSocket reader enforces the protocol and its size bounds.
 
-Functions under contract (real text, re-read every run):
+Functions under contract (real text, re-read from /repo every run):
   aiohttp/_websocket/reader_py.py: WebSocketReader.__init__, feed_data, _feed_data, _handle_frame
-Spec side: specs/rfc6455.py
+Spec side: specs/rfc6455.py (written from RFC 6455 / RFC 7692)
 """
 import z3
 
-from pyvc import (And, Iff, Implies, Ite, Not, Or, SBytes, SInt, SOpt, SSeq, U, blen, fields, is_none, is_sym, stubs,
-                  tint)
-from pyvc.registry import unit
+from pyvc import (And, Iff, Implies, Ite, Not, Or, SBytes, SInt, SObj, SOpt, SSeq, U, blen, fields, is_none, is_sym,
+                  mk_int, stubs, tint)
+from pyvc.registry import native, unit
 from specs import rfc6455 as rfc
 
 MOD = "aiohttp._websocket.reader_py"
@@ -25,12 +25,19 @@ def live():
     return importlib.import_module(MOD)
 
 
+def seq_total(x):
+    return x.total_len() if isinstance(x, SSeq) else sum(len(e) for e in x)
+
+
+def seq_count(x):
+    return x.length() if isinstance(x, SSeq) else len(x)
+
+
 # ---------------------------------------------------------------------------
 # symbolic reader object
 
 
-def mk_reader(u: U, *, handle_frame=None, in_loop=False):
-    R = live()
+def mk_reader(u: U, *, methods=None):
     proto = u.obj("BaseProtocol", {"_reading_paused": u.bool("reading_paused")},
                   {"pause_reading": lambda s: (u.event("pause_reading"), setattr(s, "_reading_paused", True))[0],
                    "resume_reading": lambda s: (u.event("resume_reading"), setattr(s, "_reading_paused", False))[0]})
@@ -38,11 +45,9 @@ def mk_reader(u: U, *, handle_frame=None, in_loop=False):
                   {"feed_data": lambda s, msg: u.event("queue.feed_data", msg),
                    "set_exception": lambda s, exc, cause=None: u.event("queue.set_exception", exc)},
                   const=("_protocol",))
-    M = u.int("max_msg_size", 0)
-    frag = SSeq.fresh("payload_fragments")
     f = {
         "queue": queue,
-        "_max_msg_size": M,
+        "_max_msg_size": u.int("max_msg_size"),
         "_decode_text": u.bool("decode_text"),
         "_exc": None,
         "_partial": SBytes.fresh("partial", bytearray),
@@ -50,7 +55,7 @@ def mk_reader(u: U, *, handle_frame=None, in_loop=False):
         "_opcode": u.int("opcode"),
         "_frame_fin": u.bool("frame_fin"),
         "_frame_opcode": u.int("frame_opcode"),
-        "_payload_fragments": frag,
+        "_payload_fragments": SSeq.fresh("payload_fragments"),
         "_max_fragments": u.int("max_fragments"),
         "_frame_payload_len": u.int("frame_payload_len"),
         "_tail": SBytes.fresh("tail"),
@@ -62,27 +67,37 @@ def mk_reader(u: U, *, handle_frame=None, in_loop=False):
         "_decompressobj": None,
         "_compress": u.bool("compress"),
     }
-    meths = {}
-    if handle_frame is not None:
-        meths["_handle_frame"] = handle_frame
-    r = u.obj("WebSocketReader", f, meths,
-              const=("queue", "_max_msg_size", "_decode_text", "_max_fragments", "_compress"),
-              factories={"_frame_mask": lambda n: SOpt.fresh(n, lambda m: SBytes.fresh(m)),
-                         "_exc": lambda n: None, "_decompressobj": lambda n: None})
-    return r
+    return u.obj("WebSocketReader", f, methods or {},
+                 const=("queue", "_max_msg_size", "_decode_text", "_max_fragments", "_compress"),
+                 factories={"_frame_mask": lambda n: SOpt.fresh(n, lambda m: SBytes.fresh(m)),
+                            "_exc": lambda n: None, "_decompressobj": lambda n: None})
+
+
+def _maxfrag(M):
+    """documented configuration: fragment-count cap = max(1024, max_msg_size // 256), 0 when unlimited"""
+    if not is_sym(M):
+        return max(1024, M // 256) if M else 0
+    m = tint(M)
+    q = m / 256
+    return mk_int(z3.If(m != 0, z3.If(q > 1024, q, z3.IntVal(1024)), z3.IntVal(0)))
+
+
+def _masklen(mask):
+    if isinstance(mask, SOpt):
+        return blen(object.__getattribute__(mask, "_val"))
+    return blen(mask) if mask is not None else -1
 
 
 def I12(r, *, in_loop=False):
-    """representation invariant of WebSocketReader (DESIGN 5/C12), as a list of named conjuncts"""
+    """representation invariant of WebSocketReader (DESIGN 5/C12), named conjuncts.
+    Works on the symbolic object and on a real WebSocketReader (native replay)."""
     R = live()
     M = r._max_msg_size
     st = r._state
     payload_states = Or(st == R.READ_PAYLOAD_MASK, st == R.READ_PAYLOAD)
     data_frame = r._frame_opcode <= 2
-    mask = r._frame_mask
-    items = [
-        ("cfg", And(M >= 0, r._max_fragments == Ite(M != 0, Ite(M / 256 > 1024, M / 256, 1024), 0)
-                    if not is_sym(M) else r._max_fragments == _maxfrag(M))),
+    return [
+        ("cfg", And(M >= 0, r._max_fragments == _maxfrag(M))),
         ("state", rfc.one_of(st, (R.READ_HEADER, R.READ_PAYLOAD_LENGTH, R.READ_PAYLOAD_MASK, R.READ_PAYLOAD))),
         ("msg_opcode", rfc.one_of(r._opcode, (R.OP_CODE_NOT_SET, rfc.OP_TEXT, rfc.OP_BINARY))),
         ("frame_opcode", Implies(st != R.READ_HEADER, rfc.one_of(r._frame_opcode, rfc.VALID_OPCODES))),
@@ -95,30 +110,15 @@ def I12(r, *, in_loop=False):
         # spec bound (property: memory for an incomplete message <= max_msg_size + const)
         ("size_cap", Implies(And(payload_states, M > 0, data_frame),
                              r._frame_payload_len + r._payload_bytes_to_read + blen(r._partial) <= M)),
-        ("frag_sum", And(r._frame_payload_len >= 0, r._frame_payload_len == r._payload_fragments.total_len())),
+        ("frag_sum", And(r._frame_payload_len >= 0, r._frame_payload_len == seq_total(r._payload_fragments))),
         ("frag_idle", Implies(st != R.READ_PAYLOAD, r._frame_payload_len == 0)),
         ("compressed", rfc.one_of(r._compressed, (R.COMPRESSED_NOT_SET, R.COMPRESSED_FALSE, R.COMPRESSED_TRUE))),
-        ("mask", Implies(And(st == R.READ_PAYLOAD, r._has_mask), And(Not(is_none(mask)), _masklen(mask) == 4))),
+        ("mask", Implies(And(st == R.READ_PAYLOAD, r._has_mask),
+                         And(Not(is_none(r._frame_mask)), _masklen(r._frame_mask) == 4))),
         ("partial_opcode", Implies(blen(r._partial) > 0, r._opcode != R.OP_CODE_NOT_SET)),
         ("partial_cap", Implies(M > 0, blen(r._partial) <= M)),
         ("tail", blen(r._tail) == 0 if in_loop else blen(r._tail) <= 7),
     ]
-    return items
-
-
-def _maxfrag(M):
-    m = tint(M)
-    q = m / 256
-    from pyvc import mk_int
-
-    return mk_int(z3.If(m != 0, z3.If(q > 1024, q, z3.IntVal(1024)), z3.IntVal(0)))
-
-
-def _masklen(mask):
-    if isinstance(mask, SOpt):
-        v = object.__getattribute__(mask, "_val")
-        return blen(v)
-    return blen(mask) if mask is not None else -1
 
 
 def assume_all(u, items):
@@ -126,17 +126,14 @@ def assume_all(u, items):
         u.assume(c)
 
 
-def check_all(u, prefix, items):
+def check_all(u, prefix, items, **kw):
     for n, c in items:
-        u.check(f"{prefix}.{n}", c)
-
-
-def ws_error_code(exc):
-    return getattr(exc, "code", None)
+        u.check(f"{prefix}.{n}", c, **kw)
 
 
 # ---------------------------------------------------------------------------
-# contract of _handle_frame (callee side is verified in unit handle_frame.*; call sites use this)
+# contract of _handle_frame: the callee is verified against it (unit handle_frame.contract),
+# call sites in _feed_data only see this contract.
 
 
 def handle_frame_requires(r, fin, opcode, payload, compressed):
@@ -147,28 +144,31 @@ def handle_frame_requires(r, fin, opcode, payload, compressed):
         ("control_small", Implies(rfc.is_control(opcode), blen(payload) <= 125)),
         ("size_cap", Implies(And(M > 0, opcode <= 2), blen(r._partial) + blen(payload) <= M)),
         ("compressed_flag", rfc.one_of(compressed, (R.COMPRESSED_NOT_SET, R.COMPRESSED_FALSE, R.COMPRESSED_TRUE))),
+        ("msg_opcode", rfc.one_of(r._opcode, (R.OP_CODE_NOT_SET, rfc.OP_TEXT, rfc.OP_BINARY))),
+        ("partial_opcode", Implies(blen(r._partial) > 0, r._opcode != R.OP_CODE_NOT_SET)),
     ]
 
 
-def handle_frame_ensures(r, old_partial_len, old_opcode, payload_len):
-    """facts about the reader after a NORMAL return of _handle_frame that callers may rely on"""
+def handle_frame_ensures(r, opcode, old_partial_len, old_opcode, payload_len):
+    """facts after a NORMAL return that callers rely on (modifies: _opcode, _partial, _decompressobj, queue)"""
     R = live()
-    M = r._max_msg_size
     return [
         ("msg_opcode", rfc.one_of(r._opcode, (R.OP_CODE_NOT_SET, rfc.OP_TEXT, rfc.OP_BINARY))),
         ("partial_opcode", Implies(blen(r._partial) > 0, r._opcode != R.OP_CODE_NOT_SET)),
-        ("partial_grow", blen(r._partial) <= old_partial_len + payload_len),
+        ("partial_grow", blen(r._partial) <= old_partial_len + Ite(opcode <= 2, payload_len, 0)),
     ]
 
 
+HANDLE_FRAME_MODIFIES = ("_opcode", "_partial", "_decompressobj")
+
+
 def make_handle_frame_stub(u):
-    """modular call: assert requires, havoc modifies = {_opcode, _partial, _decompressobj, queue}, assume ensures,
-    or raise (WebSocketError with any code, or a decompressor error)."""
     R = live()
 
     def stub(self, fin, opcode, payload, compressed):
         for n, c in handle_frame_requires(self, fin, opcode, payload, compressed):
-            u.check(f"C12.call._handle_frame.requires.{n}", c)
+            u.check(f"C12.call._handle_frame.requires.{n}", c,
+                    "precondition of _handle_frame at its call site in _feed_data")
         u.event("_handle_frame", fin, opcode, payload, compressed)
         old_len = blen(self._partial)
         old_op = self._opcode
@@ -179,7 +179,7 @@ def make_handle_frame_stub(u):
         fs["_opcode"] = u.int("opcode_after_hf")
         fs["_partial"] = SBytes.fresh("partial_after_hf", bytearray)
         fs["_decompressobj"] = None
-        for n, c in handle_frame_ensures(self, old_len, old_op, plen):
+        for n, c in handle_frame_ensures(self, opcode, old_len, old_op, plen):
             u.assume(c)
 
     return stub
@@ -187,8 +187,8 @@ def make_handle_frame_stub(u):
 
 def mask_stub(u):
     def websocket_mask(mask, data):
-        """ASSUMED contract of websocket_mask: in-place, length preserved (C11 covers its content)."""
-        stubs.used("websocket_mask(mask, bytearray): in place, length unchanged, requires len(mask)==4")
+        """ASSUMED contract of websocket_mask: in place, length preserved (content: C11)."""
+        stubs.used("websocket_mask(mask, bytearray): in place, length unchanged; requires len(mask)==4 (content: C11)")
         m = mask.get() if isinstance(mask, SOpt) else mask
         u.check("C12.call.websocket_mask.requires.mask4", And(m is not None, blen(m) == 4 if m is not None else False))
         u.check("C12.call.websocket_mask.requires.bytearray", data.kind is bytearray)
@@ -200,38 +200,54 @@ def mask_stub(u):
     return websocket_mask
 
 
+def _exc_locals(exc):
+    tb = exc.__traceback__
+    loc = None
+    while tb is not None:
+        if tb.tb_frame.f_code.co_filename.startswith("<pyvc:"):
+            loc = tb.tb_frame.f_locals
+        tb = tb.tb_next
+    return dict(loc or {})
+
+
 # ---------------------------------------------------------------------------
-# units
+# units: _feed_data
 
 
-@unit("C12", "feed_data.inv", functions=[f"{MOD}:WebSocketReader._feed_data"])
-def feed_data_inv(u: U):
-    """I12 is preserved by _feed_data for every input chunk and every prior state; every exception is a
-    WebSocketError; size test precedes buffering; header rules agree with RFC 6455."""
+def _feed_data_unit(u: U, *, canary=None):
     R = live()
     f = u.load(MOD, "WebSocketReader._feed_data", globals={"websocket_mask": mask_stub(u)})
-    r = mk_reader(u, handle_frame=make_handle_frame_stub(u))
+    r = mk_reader(u, methods={"_handle_frame": make_handle_frame_stub(u)})
     data = u.bytes("data")
     assume_all(u, I12(r))
     u.cover("C12.feed_data.pre")
     head = {}
+    entry_tail_len = blen(r._tail)
+    entry = {"tail": r._tail, "data": data}
 
     def inv(L):
         s = L["self"]
-        return I12(s, in_loop=True) + [
-            ("pos", And(L["start_pos"] >= 0, L["start_pos"] <= L["data_len"])),
-        ]
+        return I12(s, in_loop=True) + [("pos", And(L["start_pos"] >= 0, L["start_pos"] <= L["data_len"]))]
 
     def at_head(L):
         s = L["self"]
         head.clear()
         head.update(state=s._state, start_pos=L["start_pos"], frame_fin=s._frame_fin, compressed=s._compressed,
                     partial_len=blen(s._partial), fpl=s._frame_payload_len, to_read=s._payload_bytes_to_read,
-                    nfrag=s._payload_fragments.length(), paused=s.queue._protocol._reading_paused)
-        head["events0"] = len(u.events)
+                    nfrag=seq_count(s._payload_fragments), paused=s.queue._protocol._reading_paused,
+                    events0=len(u.events))
+        # make the loop-head state part of the counterexample (native replay starts one iteration from it)
+        u.c.inputs["loop_head"] = {"self": u.snapshot(s), "start_pos": L["start_pos"],
+                                   "fragments": s._payload_fragments, "queue_paused": head["paused"]}
+        # C03/C12.seg: loop-carried locals (assigned in the loop and live at its head).  A local that is
+        # bound at the head AND assigned in the body carries information from one iteration to the next
+        # inside one call but not across calls; only the cursor into the current chunk may do that.
+        info = u.fn_infos[FN_FEED].loops[0]
+        carried = sorted(v for v in info["assigned"] if v in L)
+        u.check("C12.seg.no_hidden_local", carried == ["start_pos"],
+                f"loop-carried locals of _feed_data are {carried}; only the chunk cursor may be carried")
 
-    def header_ok(L, prefix):
-        # obligations for an iteration that consumed a header (entered in READ_HEADER with >= 2 bytes)
+    def header_rules(L):
         s = L["self"]
         sp = head["start_pos"]
         dl = L["data_len"]
@@ -241,76 +257,362 @@ def feed_data_inv(u: U):
         b0, b1 = d.byte_at(sp), d.byte_at(sp + 1)
         first_fragment = Or(head["frame_fin"], head["compressed"] == R.COMPRESSED_NOT_SET)
         viol = rfc.header_violation(b0, b1, deflate_negotiated=s._compress, first_fragment=first_fragment)
-        u.check(f"{prefix}.hdr.accepted_is_valid", Not(viol),
+        u.check("C12.hdr.accepted_is_valid", Not(viol),
                 "a header accepted by READ_HEADER satisfies RFC 6455 5.2/5.5 and RFC 7692 6.1")
 
-    def at_back(L):
-        header_ok(L, "C12")
-
-    u.loop(FN_FEED, 0, inv=inv, at_head=at_head, at_back=at_back,
-           variant=lambda L: (4 - 0 * L["start_pos"], ) if False else None)
-    u.loop_specs[(FN_FEED, 0)].variant = None
+    u.loop(FN_FEED, 0, inv=inv, at_head=at_head, at_back=header_rules)
     out = u.call(f, r, data)
-    L = u.last_locals.get(FN_FEED) if out.ok else _exc_locals(out.exc)
+    M = r._max_msg_size
     if out.ok:
+        L = u.last_locals.get(FN_FEED)
         u.cover("C12.feed_data.normal_exit")
-        check_all(u, "C12.inv.exit", I12(r))
-        header_ok(L, "C12")
-        M = r._max_msg_size
-        retained = blen(r._partial) + r._payload_fragments.total_len() + blen(r._tail)
+        items = I12(r)
+        if canary == "tail":
+            items = [("canary_tail", blen(r._tail) <= 6)]
+        check_all(u, "C12.inv.exit", items)
+        header_rules(L)
+        retained = blen(r._partial) + seq_total(r._payload_fragments) + blen(r._tail)
         u.check("C12.cap.retained", Implies(M > 0, retained <= M + 125 + 7),
                 "bytes retained for an incomplete message <= max_msg_size + constant")
+        # C12.seg: the unconsumed bytes are stored exactly (provenance), nothing is dropped or duplicated
+        full = L["data_cstr"]
+        sp, dl = L["start_pos"], L["data_len"]
+        u.check("C12.seg.tail_exact", r._tail.prov_eq(full.slice(sp, dl)) if isinstance(r._tail, SBytes)
+                else And(blen(r._tail) == 0, sp == dl),
+                "_tail is exactly data[start_pos:] at every exit that leaves input unconsumed")
+        # C12.frag: fragment-count cap requests back-pressure
+        nf = seq_count(r._payload_fragments)
+        u.check("C12.frag.pause",
+                Implies(And(nf > head["nfrag"], r._max_fragments > 0, nf > r._max_fragments),
+                        r.queue._protocol._reading_paused),
+                "more than max_fragments buffered fragments => reading is paused")
+        return
+    u.cover("C12.feed_data.raises")
+    L = _exc_locals(out.exc)
+    u.check("C12.escape._feed_data", isinstance(out.exc, R.WebSocketError),
+            f"only WebSocketError may escape _feed_data, got {type(out.exc).__name__}: {out.exc}")
+    from_callee = any(e[0] == "_handle_frame" for e in u.events[head.get("events0", 0):])
+    if not isinstance(out.exc, R.WebSocketError) or from_callee or not head:
+        return
+    code = out.exc.code
+    sp, dl, d = head["start_pos"], L["data_len"], L["data_cstr"]
+    read_hdr = And(head["state"] == R.READ_HEADER, dl - sp >= 2)
+    if u.branch(code == rfc.CLOSE_PROTOCOL_ERROR, "code1002"):
+        b0, b1 = d.byte_at(sp), d.byte_at(sp + 1)
+        first_fragment = Or(head["frame_fin"], head["compressed"] == R.COMPRESSED_NOT_SET)
+        viol = rfc.header_violation(b0, b1, deflate_negotiated=r._compress, first_fragment=first_fragment)
+        u.check("C12.code.1002_is_violation", And(read_hdr, viol),
+                "PROTOCOL_ERROR is raised by _feed_data only for a header that violates RFC 6455")
+    elif u.branch(code == rfc.CLOSE_MESSAGE_TOO_BIG, "code1009"):
+        u.check("C12.cap.pre.nothing_buffered",
+                And(seq_count(r._payload_fragments) == head["nfrag"], blen(r._partial) == head["partial_len"]),
+                "the size test rejects before any payload byte of the frame is buffered")
+        # frame_len is bound only in an iteration that decoded a 64-bit length
+        declared = L["frame_len"] if "frame_len" in L else r._payload_bytes_to_read
+        too_big = Or(declared > R.MAX_PAYLOAD_LEN, And(M > 0, declared + blen(r._partial) > M))
+        u.check("C12.accept.not_above_limit_not_rejected", too_big,
+                "MESSAGE_TOO_BIG only if the declared message size is ABOVE max_msg_size (exactly max is accepted)",
+                witness={"declared": declared, "partial_len": blen(r._partial), "max_msg_size": M})
     else:
-        u.cover("C12.feed_data.raises")
-        u.check("C12.escape._feed_data", isinstance(out.exc, R.WebSocketError),
-                f"only WebSocketError may escape, got {type(out.exc).__name__}: {out.exc}")
-        if isinstance(out.exc, R.WebSocketError) and not any(e[0] == "_handle_frame" for e in u.events[head.get("events0", 0):]):
-            # raised by _feed_data itself (not by the callee): classify by RFC
-            code = out.exc.code
-            s = r
-            sp = head["start_pos"]
-            d = L["data_cstr"]
-            dl = L["data_len"]
-            read_hdr = And(head["state"] == R.READ_HEADER, dl - sp >= 2)
-            if u.branch(read_hdr, "raise_in_header_iteration") and "has_mask" not in _assigned_since_head(L, head):
-                pass
-            if isinstance(code, int) or is_sym(code):
-                if u.branch(code == rfc.CLOSE_PROTOCOL_ERROR, "code1002"):
-                    # 1002 only for a protocol violation in the header just read
-                    b0, b1 = d.byte_at(sp), d.byte_at(sp + 1)
-                    first_fragment = Or(head["frame_fin"], head["compressed"] == R.COMPRESSED_NOT_SET)
-                    viol = rfc.header_violation(b0, b1, deflate_negotiated=s._compress, first_fragment=first_fragment)
-                    u.check("C12.code.1002_is_violation", And(read_hdr, viol),
-                            "PROTOCOL_ERROR is raised only for a header that violates RFC 6455")
-                elif u.branch(code == rfc.CLOSE_MESSAGE_TOO_BIG, "code1009"):
-                    # the frame was not buffered: nothing was appended in this iteration
-                    u.check("C12.cap.pre.nothing_buffered",
-                            And(s._payload_fragments.length() == head["nfrag"], blen(s._partial) == head["partial_len"]),
-                            "size test rejects before any payload byte of the frame is buffered")
-                    # 'messages above max_msg_size' : a message of total size <= max is not rejected
-                    declared = L.get("frame_len", s._payload_bytes_to_read) if "frame_len" in _fresh_locals(L, head) else s._payload_bytes_to_read
-                    M = s._max_msg_size
-                    too_big = Or(declared > R.MAX_PAYLOAD_LEN, And(M > 0, declared + blen(s._partial) > M))
-                    u.check("C12.accept.not_above_limit_not_rejected", too_big,
-                            "MESSAGE_TOO_BIG only if the declared message size is above max_msg_size")
+        u.check("C12.code.known", False, "WebSocketError with an unexpected close code raised by _feed_data")
+
+
+@unit("C12", "feed_data.inv", functions=[f"{MOD}:WebSocketReader._feed_data"])
+def feed_data_inv(u: U):
+    """I12 preserved by _feed_data for every chunk and prior state; only WebSocketError escapes; header rules
+    agree with RFC 6455 in both directions; size test precedes buffering; unconsumed input kept exactly."""
+    _feed_data_unit(u)
+
+
+@unit("C12", "canary.tail_le_6", functions=[f"{MOD}:WebSocketReader._feed_data"], expect="canary")
+def feed_data_canary(u: U):
+    """deliberately false clause: len(_tail) <= 6 at exit (an incomplete 64-bit length leaves 7 bytes)"""
+    _feed_data_unit(u, canary="tail")
+
+
+def _real_reader(state: dict, fragments, paused):
+    from unittest import mock
+
+    R = live()
+    proto = mock.Mock()
+    proto._reading_paused = bool(paused)
+    proto.pause_reading.side_effect = lambda: setattr(proto, "_reading_paused", True)
+    q = R.WebSocketDataQueue(proto, 2 ** 16, loop=mock.Mock())
+    r = R.WebSocketReader.__new__(R.WebSocketReader)
+    for k, v in state.items():
+        if k == "queue":
+            v = q
+        elif k == "_partial":
+            v = bytearray(v)
+        elif k == "_payload_fragments":
+            v = list(fragments if fragments is not None else v)
+        setattr(r, k, v)
+    return r, q
+
+
+@native("C12.feed_data.inv")
+def native_feed_data(model, obligation):
+    """replay: build a REAL WebSocketReader in the loop-head state of the counterexample (it satisfies I12),
+    feed the rest of the chunk to the real _feed_data, evaluate the same contract natively."""
+    R = live()
+    hd = model.get("loop_head")
+    if not hd:
+        return {"confirmed": False, "detail": "counterexample has no loop-head state"}
+    st = dict(hd["self"])
+    st["_tail"] = b""
+    r, q = _real_reader(st, hd.get("fragments"), hd.get("queue_paused"))
+    pre = [n for n, c in I12(r) if c is not True and not c]
+    data = (model.get("tail", b"") + model.get("data", b""))[hd["start_pos"]:]
+    try:
+        r._feed_data(data)
+    except R.WebSocketError as e:
+        w = (model.get("__witness__") or {})
+        if obligation.startswith("C12.accept") and e.code == 1009 and w and \
+                w["declared"] + w["partial_len"] <= w["max_msg_size"]:
+            return {"confirmed": True, "detail": f"real _feed_data raised {e!r} for a message not above the limit",
+                    "input": {"state": repr(st), "data": data.hex()}}
+        return {"confirmed": False, "detail": f"WebSocketError {e!r}", "pre_violated": pre}
+    except Exception as e:  # noqa: BLE001
+        return {"confirmed": True, "detail": f"real _feed_data raised {type(e).__name__}: {e}", "pre_violated": pre,
+                "input": {"state": repr(st), "data": data.hex()}}
+    bad = [n for n, c in I12(r) if c is not True and not c]
+    return {"confirmed": bool(bad) and not pre, "detail": f"I12 conjuncts violated after the real call: {bad}",
+            "pre_violated": pre, "input": {"state": repr(st), "data": data.hex()}}
+
+
+# ---------------------------------------------------------------------------
+# units: _handle_frame
+
+
+class _Decomp:
+    """ASSUMED contract of ZLibDecompressor.decompress_sync (A: zlib): the result has at most max_length bytes when
+    max_length > 0; it may raise TooManyMembersError or a zlib error."""
+
+    def __init__(self, u, **kw):
+        self.u = u
+        u.event("ZLibDecompressor", kw)
+
+    def decompress_sync(self, data, max_length=0):
+        u = self.u
+        R = live()
+        stubs.used("ZLibDecompressor.decompress_sync(data, max_length): len(result) <= max_length when max_length > 0; "
+                   "may raise TooManyMembersError / zlib.error")
+        u.event("decompress_sync", data, max_length)
+        k = u.choose(3, "decompress")
+        if k == 1:
+            raise R.TooManyMembersError("symbolic")
+        if k == 2:
+            import zlib
+
+            raise zlib.error("symbolic corrupt deflate stream")
+        out = SBytes.fresh("inflated")
+        u.assume(Implies(max_length > 0, blen(out) <= max_length))
+        return out
+
+    def __bool__(self):
+        return True
+
+
+@unit("C12", "handle_frame.contract", functions=[f"{MOD}:WebSocketReader._handle_frame"])
+def handle_frame_contract(u: U):
+    """_handle_frame against RFC 6455 5.4/5.5/7.4 + RFC 7692 and against the contract its caller uses."""
+    R = live()
+    f = u.load(MOD, "WebSocketReader._handle_frame",
+               globals={"ZLibDecompressor": lambda **kw: _Decomp(u, **kw)})
+    r = mk_reader(u)
+    fin = u.bool("fin")
+    opcode = u.int("frame_opcode_arg")
+    payload = u.bytes("payload", bytes if u.choose(2, "payload_kind") == 0 else bytearray)
+    compressed = u.int("compressed_arg")
+    u.assume(r._max_msg_size >= 0)
+    for n, c in handle_frame_requires(r, fin, opcode, payload, compressed):
+        u.assume(c)
+    u.cover("C12.handle_frame.pre")
+    M = r._max_msg_size
+    old_partial = r._partial.copy_as(bytearray)
+    old_plen = blen(old_partial)
+    old_op = r._opcode
+    in_progress = old_op != R.OP_CODE_NOT_SET
+    plen = blen(payload)
+    out = u.call(f, r, fin, opcode, payload, compressed)
+    feeds = [e[1] for e in u.events if e[0] == "queue.feed_data"]
+    decs = [e for e in u.events if e[0] == "decompress_sync"]
+    is_data = opcode <= 2
+    # frame: only the declared fields are written
+    stores = set(object.__getattribute__(r, "_o_stores"))
+    u.check("C12.handle.frame", stores <= set(HANDLE_FRAME_MODIFIES),
+            f"_handle_frame writes {sorted(stores)}; its contract allows {HANDLE_FRAME_MODIFIES}")
+    if not out.ok:
+        e = out.exc
+        import zlib
+
+        u.check("C12.escape._handle_frame", isinstance(e, (R.WebSocketError, zlib.error)),
+                f"only WebSocketError (or the decompressor's own error) may escape, got {type(e).__name__}: {e}")
+        u.check("C12.latch.nothing_delivered_on_error", len(feeds) == 0,
+                "no message is delivered by a frame that ends in an error")
+        if isinstance(e, R.WebSocketError):
+            code = e.code
+            if u.branch(code == rfc.CLOSE_PROTOCOL_ERROR, "1002"):
+                close_bad = False
+                if u.branch(And(opcode == rfc.OP_CLOSE, plen >= 2), "close_with_code"):
+                    cc = payload.byte_at(0) * 256 + payload.byte_at(1)
+                    close_bad = Not(rfc.close_code_valid(cc))
+                u.check("C12.code.handle.1002", Or(
+                    And(opcode == rfc.OP_CONT, Not(in_progress)),
+                    And(rfc.one_of(opcode, (rfc.OP_TEXT, rfc.OP_BINARY)), in_progress),
+                    And(opcode == rfc.OP_CLOSE, plen == 1),
+                    close_bad,
+                ), "1002 from _handle_frame only for: continuation without message, data frame inside a fragmented "
+                   "message, close payload of 1 byte, invalid close code")
+            elif u.branch(code == rfc.CLOSE_INVALID_TEXT, "1007"):
+                u.check("C12.code.handle.1007", Or(opcode == rfc.OP_CLOSE, And(is_data, fin, r._decode_text)),
+                        "1007 only for undecodable text / close reason")
+            elif u.branch(code == rfc.CLOSE_MESSAGE_TOO_BIG, "1009"):
+                u.check("C12.code.handle.1009", And(is_data, fin, compressed != 0),
+                        "1009 from _handle_frame only on the decompression path (too big / too many members)")
+            else:
+                u.check("C12.code.handle.known", False, "unexpected close code")
+        return
+    u.cover("C12.handle_frame.normal")
+    # ---- the contract the caller relies on
+    for n, c in handle_frame_ensures(r, opcode, old_plen, old_op, plen):
+        u.check(f"C12.handle.ensures.{n}", c, "postcondition of _handle_frame used at its call site")
+    # ---- RFC 6455 5.4: fragmentation
+    u.check("C12.handle.cont_needs_message", Not(And(opcode == rfc.OP_CONT, Not(in_progress))),
+            "a continuation frame without a started message is a protocol error (never a normal return)")
+    u.check("C12.handle.no_interleave", Not(And(rfc.one_of(opcode, (rfc.OP_TEXT, rfc.OP_BINARY)), in_progress)),
+            "a new TEXT/BINARY frame while a fragmented message is in progress is a protocol error (RFC 6455 5.4)",
+            known=[("F12b", And(rfc.one_of(opcode, (rfc.OP_TEXT, rfc.OP_BINARY)), in_progress,
+                                Or(Not(fin), old_plen == 0)))],
+            witness={"fin": fin, "opcode": opcode, "msg_opcode_in_progress": old_op, "partial_len": old_plen})
+    if u.branch(is_data, "data_frame"):
+        if u.branch(fin, "fin"):
+            u.check("C12.handle.deliver_one", len(feeds) == 1, "a final data frame delivers exactly one message")
+            if len(feeds) == 1:
+                msg = feeds[0]
+                mtype = Ite(opcode == rfc.OP_CONT, old_op, opcode)
+                u.check("C12.handle.msg_type", msg[3] == Ite(mtype == rfc.OP_TEXT, int(R.WSMsgType.TEXT), int(R.WSMsgType.BINARY))
+                        if not isinstance(msg[3], R.WSMsgType) else
+                        And(Implies(mtype == rfc.OP_TEXT, msg[3] is R.WSMsgType.TEXT),
+                            Implies(mtype != rfc.OP_TEXT, msg[3] is R.WSMsgType.BINARY)),
+                        "message type is the opcode of the first fragment")
+                body = msg[0].src_bytes if isinstance(msg[0], stubs.SDecoded) else msg[0]
+                if u.branch(compressed != 0, "compressed"):
+                    u.check("C12.cap.inflate.max_length", And(len(decs) == 1, decs[0][2] == Ite(M != 0, M + 1, 0))
+                            if decs else False,
+                            "decompression is asked for at most max_msg_size + 1 bytes")
+                    u.check("C12.cap.inflate.size", Implies(M > 0, blen(body) <= M),
+                            "a decompressed message above max_msg_size is never delivered")
+                    if decs:
+                        arg = decs[0][1]
+                        want = SBytes.of(old_partial).__add__(payload).__add__(R.WS_DEFLATE_TRAILING)
+                        u.check("C12.handle.inflate_input", SBytes.of(arg).prov_eq(SBytes.of(want)),
+                                "the decompressor receives partial ++ payload ++ 00 00 ff ff")
                 else:
-                    u.check("C12.code.known", False, "WebSocketError with an unexpected close code")
+                    want = SBytes.of(old_partial).__add__(payload)
+                    u.check("C12.handle.payload_exact", SBytes.of(body).prov_eq(SBytes.of(want)),
+                            "delivered payload is exactly the buffered fragments followed by this frame's payload")
+                    u.check("C12.cap.msg_size", Implies(M > 0, blen(body) <= M), "delivered message <= max_msg_size")
+                u.check("C12.handle.msg_size_field", msg[1] == blen(body), "WSMessage.size is the payload length")
+            u.check("C12.handle.partial_cleared", blen(r._partial) == 0, "no fragment bytes remain after delivery")
+            u.check("C12.handle.message_closed", Implies(opcode == rfc.OP_CONT, r._opcode == R.OP_CODE_NOT_SET),
+                    "a final continuation ends the fragmented message")
+        else:
+            u.check("C12.handle.nonfinal_delivers_nothing", len(feeds) == 0, "a non-final fragment delivers nothing")
+            want = SBytes.of(old_partial).__add__(payload)
+            u.check("C12.handle.partial_append", r._partial.prov_eq(SBytes.of(want, bytearray)),
+                    "a non-final fragment is appended to the buffered message")
+            u.check("C12.handle.msg_opcode_set", r._opcode == Ite(opcode == rfc.OP_CONT, old_op, opcode),
+                    "the first fragment's opcode is remembered")
+    else:
+        u.check("C12.handle.control_delivers_one", len(feeds) == 1, "a control frame delivers exactly one message")
+        u.check("C12.handle.control_keeps_message", And(r._opcode == old_op, r._partial.prov_eq(old_partial)),
+                "a control frame between fragments does not disturb the message being assembled")
+        if len(feeds) == 1 and u.branch(opcode == rfc.OP_CLOSE, "close"):
+            msg = feeds[0]
+            u.check("C12.handle.close.no_1byte", plen != 1, "a close payload of one byte is a protocol error")
+            if u.branch(plen >= 2, "close_code_present"):
+                cc = payload.byte_at(0) * 256 + payload.byte_at(1)
+                u.check("C12.handle.close.code_reported", msg.data == cc, "reported close code is the peer's code")
+                u.check("C12.handle.close.code_valid", rfc.close_code_valid(cc),
+                        "only close codes that may appear on the wire (RFC 6455 7.4) are accepted",
+                        known=[("F12c", cc == 1006)], witness={"close_code": cc})
+                body = msg.extra.src_bytes if isinstance(msg.extra, stubs.SDecoded) else msg.extra
+                u.check("C12.handle.close.reason", SBytes.of(body).prov_eq(SBytes.of(payload).slice(2, None))
+                        if not isinstance(body, str) else False, "close reason is payload[2:] decoded")
+            else:
+                u.check("C12.handle.close.empty", And(msg.data == 0, msg.extra == ""), "empty close payload: code 0")
+        elif len(feeds) == 1:
+            msg = feeds[0]
+            u.check("C12.handle.pingpong.payload", SBytes.of(msg.data).prov_eq(SBytes.of(payload)),
+                    "ping/pong payload is delivered unchanged")
+            want_t = Ite(opcode == rfc.OP_PING, int(R.WSMsgType.PING), int(R.WSMsgType.PONG))
+            u.check("C12.handle.pingpong.type", int(msg.type) == want_t if not is_sym(want_t) else msg.type == want_t,
+                    "ping -> PING message, pong -> PONG message")
 
 
-def _exc_locals(exc):
-    tb = exc.__traceback__
-    loc = None
-    while tb is not None:
-        if tb.tb_frame.f_code.co_filename.startswith("<pyvc:"):
-            loc = tb.tb_frame.f_locals
-            break_here = True
-        tb = tb.tb_next
-    return dict(loc or {})
+# ---------------------------------------------------------------------------
+# units: feed_data (latch) and __init__
 
 
-def _assigned_since_head(L, head):
-    return set()
+@unit("C12", "feed_data.latch", functions=[f"{MOD}:WebSocketReader.feed_data"])
+def feed_data_latch(u: U):
+    """after an error nothing more is parsed or delivered; any exception of _feed_data latches the reader."""
+    R = live()
+    calls = []
+    boom = RuntimeError("symbolic failure inside _feed_data")
+
+    def feed_stub(self, data):
+        calls.append(data)
+        k = u.choose(3, "_feed_data.outcome")
+        if k == 1:
+            raise R.WebSocketError(u.int("code"), "symbolic")
+        if k == 2:
+            raise boom
+
+    f = u.load(MOD, "WebSocketReader.feed_data",
+               globals={"set_exception": lambda q, exc, *a: u.event("set_exception", q, exc)})
+    r = mk_reader(u, methods={"_feed_data": feed_stub})
+    prev = None
+    if u.choose(2, "already_failed"):
+        prev = R.WebSocketError(1002, "earlier")
+        fields(r)["_exc"] = prev
+    data = u.bytes("data", bytes if u.choose(2, "kind") == 0 else bytearray)
+    out = u.call(f, r, data)
+    u.check("C12.latch.total", out.ok, f"feed_data never raises, got {out.exc!r}")
+    if not out.ok:
+        return
+    res = out.value
+    if prev is not None:
+        u.check("C12.latch.no_parse_after_error", And(len(calls) == 0, len(u.events) == 0, res[0] is True),
+                "once an error was recorded feed_data parses and delivers nothing")
+        u.check("C12.latch.returns_data", SBytes.of(res[1]).prov_eq(SBytes.of(data)), "the unparsed data is returned")
+        return
+    u.check("C12.latch.one_parse", len(calls) == 1, "_feed_data is called exactly once")
+    sets = [e for e in u.events if e[0] == "set_exception"]
+    if r._exc is not None:
+        u.check("C12.latch.error_recorded", And(len(sets) == 1, sets[0][2] is r._exc if sets else False,
+                                                sets[0][1] is r.queue if sets else False, res[0] is True),
+                "a parsing exception is recorded, forwarded to the queue and reported as an error result")
+    else:
+        u.check("C12.latch.ok_result", And(len(sets) == 0, res[0] is False), "no error: (False, b'')")
+    u.check("C12.latch.bytes_coerced", calls[0].kind is bytes if calls and isinstance(calls[0], SBytes) else True,
+            "_feed_data always receives bytes")
 
 
-def _fresh_locals(L, head):
-    return set(L.keys())
+@unit("C12", "init.establishes_inv", functions=[f"{MOD}:WebSocketReader.__init__"])
+def init_inv(u: U):
+    """__init__ establishes I12 for every max_msg_size >= 0 and flag combination."""
+    R = live()
+    f = u.load(MOD, "WebSocketReader.__init__")
+    r = u.obj("WebSocketReader", {}, {})
+    q = u.obj("WebSocketDataQueue", {}, {})
+    M = u.int("max_msg_size", 0)
+    out = u.call(f, r, q, M, u.bool("compress"), u.bool("decode_text"))
+    u.check("C12.init.total", out.ok, f"__init__ raised {out.exc!r}")
+    if out.ok:
+        fs = fields(r)
+        fs["_payload_fragments"] = list(fs["_payload_fragments"])
+        check_all(u, "C12.init.inv", I12(r))
+        u.check("C12.init.idle", And(r._state == R.READ_HEADER, r._opcode == R.OP_CODE_NOT_SET, r._exc is None),
+                "a new reader waits for a header with no message in progress")
